@@ -8,7 +8,7 @@ LEVEL = 'exploration'
 RES = {0: 'OK', 1: 'NA', 2: 'FAIL'}
 T0 = 1500000000            # aggregation time of the signatures used with certificates
 KEY = b'anon'
-EXT_BEHAVIOURS = ['honest', 'other-root', 'other-input-hash', 'other-aggr-time', 'altered-right-link', 'surplus-right-link', 'missing-right-link', 'no-aggr-time-element', 'status-error', 'bad-mac', 'no-reply', 'wrong-id', 'error-pdu']
+EXT_BEHAVIOURS = ['honest', 'other-root', 'other-input-hash', 'other-aggr-time', 'other-pub-time', 'altered-right-link', 'surplus-right-link', 'missing-right-link', 'no-aggr-time-element', 'status-error', 'bad-mac', 'no-reply', 'wrong-id', 'error-pdu']
 WRONG_SHAPE_EXT = ('surplus-right-link', 'missing-right-link')
 FAILING_EXT = ('status-error', 'bad-mac', 'no-reply', 'wrong-id', 'error-pdu')
 
@@ -118,6 +118,8 @@ class Extender:
         tt = t
         if b == 'other-aggr-time':
             tt = t + 1 if t + 1 <= pp else t - 1
+        if b == 'other-pub-time' and p is not None:
+            pp = p + 1       # a consistent chain, but to another publication time than the one asked for
         chain = self.cal.chain(tt, pp, self.root)
         if b == 'other-root':
             lefts = [i for i, (l, sb) in enumerate(chain.links) if l]
@@ -195,6 +197,9 @@ def expect(policy, sc):
             return ('FAIL', {'PUB-02', 'PUB-01', 'PUB-03'})
         if ext == 'other-input-hash':
             return ('FAIL', {'PUB-03', 'PUB-01'})
+        if ext == 'other-pub-time':
+            # a reply to another publication time than requested: never OK; a client may refuse it outright
+            return ('ANY', [('FAIL', {'PUB-02', 'PUB-01', 'PUB-03'}), ('NA',)])
         return ('NA',)
 
     if policy == 'userpub':
@@ -248,6 +253,11 @@ def expect(policy, sc):
             return ('FAIL', {'KEY-02'})
         return ('OK',)
     if policy == 'calendar':
+        if ext == 'other-pub-time' and kind == 'pub':
+            # a signature with a publication record is extended to that record's time: the reply to another time is never OK
+            return ('ANY', [('FAIL', {'CAL-01', 'CAL-02', 'CAL-03', 'CAL-04'}), ('NA',)])
+        if ext == 'other-pub-time':
+            ext_ok = True         # otherwise this policy asks for the calendar head (no publication time in the request): the deviation does not apply
         if ext_fails:
             return ('NA',)
         if ext_ok:
